@@ -69,8 +69,42 @@ var (
 	c24B    = c24P("b", 0, 12)
 	c24Boot = &c24Peer{name: "BOOT", addr: c24Addr(1, 13), bin: 1, boot: true}
 	c24X1   = c24Pre[1]
-	c24All  = append(append([]*c24Peer{}, c24Pre...), c24U, c24W, c24B, c24Boot)
+	c24A0   = c24Pre[0]
+	// peers that are only made known (AddPeers), never connected
+	c24K0  = c24P("k0", 0, 20) // preloaded as known+public in scenario "diverged"
+	c24G0  = c24P("g0", 0, 21)
+	c24G3  = c24P("g3", 3, 22)
+	c24All = append(append([]*c24Peer{}, c24Pre...), c24U, c24W, c24B, c24Boot, c24K0, c24G0, c24G3)
 )
+
+// reference depth of a peer set with radius MaxPO: the largest d allowed by the clauses of C22
+// (at most nnLowWatermark peers -> 0; >= 3 reachable peers in bins >= d; no bin < d without a peer;
+// every bin < d holds >= quickSaturationPeers reachable peers). bins[b] = {peers, reachable peers}.
+func c24RefDepth(bins map[int][2]int) int {
+	total := 0
+	for _, b := range bins {
+		total += b[0]
+	}
+	if total <= nnLowWatermark {
+		return 0
+	}
+	best := 0
+	for d := 1; d <= int(boson.MaxPO); d++ {
+		if bins[d-1][0] == 0 || bins[d-1][1] < quickSaturationPeers {
+			break
+		}
+		n := 0
+		for b, c := range bins {
+			if b >= d {
+				n += c[1]
+			}
+		}
+		if n >= 3 {
+			best = d
+		}
+	}
+	return best
+}
 
 func c24Name(a boson.Address) string {
 	for _, p := range c24All {
@@ -121,7 +155,7 @@ func c24Mode(p *c24Peer) aurora.Model {
 }
 
 type c24Op struct {
-	kind string // in in-force out disc force-disc public protect
+	kind string // in in-force out disc force-disc public add protect
 	peer *c24Peer
 	list []*c24Peer
 }
@@ -140,6 +174,8 @@ func (o c24Op) String() string {
 		return "DisconnectForce(" + o.peer.name + ")"
 	case "public":
 		return "Reachable(" + o.peer.name + ", public)"
+	case "add":
+		return "AddPeers(" + o.peer.name + ")"
 	default:
 		var n []string
 		for _, p := range o.list {
@@ -149,34 +185,57 @@ func (o c24Op) String() string {
 	}
 }
 
-func c24Ops() []c24Op {
+// operations per scenario (0 loaded, 1 diverged, 2 empty). The loaded scenario lets a preloaded
+// shallow peer leave (it stays known); the diverged and empty ones add known-only peers.
+func c24Ops(sc int) []c24Op {
 	var ops []c24Op
-	for _, p := range []*c24Peer{c24U, c24W, c24B} {
+	free := []*c24Peer{c24U, c24W, c24B}
+	if sc == 1 {
+		free = []*c24Peer{c24U, c24W}
+	}
+	for _, p := range free {
 		for _, k := range []string{"in", "in-force", "out", "disc", "force-disc", "public"} {
+			if p == c24B && (k == "in-force" || k == "force-disc") {
+				continue // exercised on u and w
+			}
+			if sc == 1 && k == "force-disc" && p == c24W {
+				continue
+			}
 			ops = append(ops, c24Op{kind: k, peer: p})
 		}
 	}
-	ops = append(ops,
-		c24Op{kind: "disc", peer: c24X1}, c24Op{kind: "force-disc", peer: c24X1},
-		c24Op{kind: "out", peer: c24Boot}, c24Op{kind: "disc", peer: c24Boot},
+	ops = append(ops, c24Op{kind: "disc", peer: c24X1}, c24Op{kind: "force-disc", peer: c24X1},
 		c24Op{kind: "protect", list: []*c24Peer{c24W}}, c24Op{kind: "protect", list: nil})
+	if sc != 1 {
+		ops = append(ops, c24Op{kind: "out", peer: c24Boot}, c24Op{kind: "disc", peer: c24Boot})
+	}
+	if sc == 0 {
+		ops = append(ops, c24Op{kind: "disc", peer: c24A0})
+	} else {
+		ops = append(ops, c24Op{kind: "add", peer: c24G0}, c24Op{kind: "public", peer: c24G0}, c24Op{kind: "add", peer: c24G3})
+	}
 	return ops
 }
 
 func TestVerifC24(t *testing.T) {
 	depth := mc.Pick(4, 6)
-	ops := c24Ops()
-	var opNames []string
-	for _, o := range ops {
-		opNames = append(opNames, o.String())
+	opsBy := [][]c24Op{c24Ops(0), c24Ops(1), c24Ops(2)}
+	opNames := map[string][]string{}
+	for i, name := range []string{"loaded", "diverged", "empty"} {
+		for _, o := range opsBy[i] {
+			opNames[name] = append(opNames[name], o.String())
+		}
 	}
-	scenarios := []string{"loaded: a0 (bin 0), x1..x4 (bin 1), z1..z3 (bin 2) connected inbound and reported public (depth 2, bin 1 one short of oversaturation)", "empty"}
+	scenarios := []string{
+		"loaded: a0 (bin 0), x1..x4 (bin 1), z1..z3 (bin 2) connected inbound and reported public (depth 2, bin 1 one short of oversaturation)",
+		"diverged: k0 (bin 0) only known (AddPeers) and reported public, x1..x4 (bin 1), z1..z3 (bin 2) connected inbound and public (depth of the connected set 0, depth over the known peers 2)",
+		"empty"}
 
 	mc.Run(t, mc.Config{ID: "C24", Name: "C24-opseq", MaxDev: -1, Params: map[string]interface{}{
-		"depth":      depth,
+		"depth":      fmt.Sprintf("%d (scenario empty: %d)", depth, depth-1),
 		"scenarios":  scenarios,
 		"operations": opNames,
-		"peers":      "u, w, x1..x4, BOOT (boot node): bin 1; b, a0: bin 0; z1..z3: bin 2",
+		"peers":      "u, w, x1..x4, BOOT (boot node): bin 1; b, a0, k0, g0: bin 0; z1..z3: bin 2; g3: bin 3 (k0, g0, g3 are only ever made known, never connected)",
 		"thresholds": "Options.BinMaxPeers=5 -> overSaturation 5, saturation 2, quickSaturation 1",
 		"observed_after_every_step": "EachPeer, EachPeerRev, EachKnownPeer, Snapshot (Connected, Population, per-bin lists), SnapshotConnected, Pick for u, w, b",
 		"pruning":                   "canonical state = ordered connected/known bins, reachability of every peer, protect list, depth",
@@ -189,15 +248,24 @@ func TestVerifC24(t *testing.T) {
 		public := map[string]bool{} // reported public
 		var protect []*c24Peer
 
-		if sc == 0 {
+		if sc == 1 {
+			k.AddPeers(c24K0.addr)
+			k.Reachable(c24K0.addr, p2p.ReachabilityStatusPublic)
+			public[c24K0.name] = true
+		}
+		if sc <= 1 {
 			for _, p := range c24Pre {
+				if sc == 1 && p == c24A0 {
+					continue
+				}
 				x.NoErr(k.Connected(ctx, p2p.Peer{Address: p.addr, Mode: c24Mode(p)}, false), "preload Connected "+p.name)
 				k.Reachable(p.addr, p2p.ReachabilityStatusPublic)
 				conn[p.name] = true
 				public[p.name] = true
 			}
-			if d := k.NeighborhoodDepth(); d != 2 {
-				x.Broken("preloaded scenario has depth %d, harness expects 2", d)
+			wantD := []uint8{2, 0}[sc]
+			if d := k.NeighborhoodDepth(); d != wantD {
+				x.Broken("preloaded scenario %d has depth %d, harness expects %d", sc, d, wantD)
 			}
 		}
 		x.Logf("scenario %s", scenarios[sc])
@@ -222,15 +290,40 @@ func TestVerifC24(t *testing.T) {
 			}
 			return
 		}
-		// the bin is oversaturated under every reading: at least overSaturation connected peers, all
-		// of them counted by any reachability-aware reading too, and the bin lies below the depth of
-		// the connected set and below the depth over the known peers (the two depths the code knows)
+		// Reading of "its bin is not oversaturated" (see NOTES.md): a bin is oversaturated when it holds
+		// at least overSaturation connected peers that are reported public and lies below the potential
+		// depth, i.e. the depth the node would have over all KNOWN peers (radius ignored). The depth is
+		// taken from the real known-peer set twice - the clause-based reference depth of this harness and
+		// the package's own recalcDepth - and the bin must lie below both.
+		knownDepths := func() (ref, real int) {
+			bins := map[int][2]int{}
+			_ = k.EachKnownPeer(func(a boson.Address, po uint8) (bool, bool, error) {
+				b := bins[int(po)]
+				b[0]++
+				if public[c24Name(a)] {
+					b[1]++
+				}
+				bins[int(po)] = b
+				return false, false, nil
+			})
+			return c24RefDepth(bins), int(recalcDepth(k.knownPeers, boson.MaxPO, k.peerFilter))
+		}
 		certainlyOversaturated := func(bin int) bool {
 			_, pub := binCount(bin)
 			if pub < overSaturationPeers {
 				return false
 			}
-			return bin < int(k.NeighborhoodDepth()) && bin < int(recalcDepth(k.knownPeers, boson.MaxPO, k.peerFilter))
+			ref, real := knownDepths()
+			if ref != real {
+				x.Tag("known-depth-readings-differ")
+			}
+			if !(bin < ref && bin < real) {
+				return false
+			}
+			if bin >= int(k.NeighborhoodDepth()) {
+				x.Tag("oversaturated-bin-at-or-beyond-connected-depth")
+			}
+			return true
 		}
 
 		observe := func(when string) {
@@ -369,6 +462,11 @@ func TestVerifC24(t *testing.T) {
 		}
 
 		observe("initially")
+		depth := depth
+		if sc == 2 {
+			depth-- // nothing is near saturation from the empty Kad: one step less
+		}
+		ops := opsBy[sc]
 		for step := 0; step < depth; step++ {
 			op := ops[x.Choose(len(ops))]
 			when := fmt.Sprintf("after step %d %s", step+1, op)
@@ -429,6 +527,10 @@ func TestVerifC24(t *testing.T) {
 				k.Reachable(p.addr, p2p.ReachabilityStatusPublic)
 				x.Logf("%s", op)
 				public[p.name] = true
+			case "add":
+				k.AddPeers(p.addr)
+				x.Logf("%s", op)
+				x.Tag("known-only-peer-added")
 			case "protect":
 				var l []boson.Address
 				for _, q := range op.list {
